@@ -345,6 +345,8 @@ class Ctx:
         with _Flock(os.path.join(WORK, "go.lock")):
             os.makedirs(moddir, exist_ok=True)
             gm = open(os.path.join(hdir, "go.mod")).read().replace("=> /repo", "=> " + self.repo)
+            # relative replace targets (harness/third_party/...) are relative to the harness dir
+            gm = gm.replace("=> ./", "=> " + hdir + "/")
             with open(os.path.join(moddir, "go.mod"), "w") as f:
                 f.write(gm)
             shutil.copy(os.path.join(self.repo, "go.sum"), os.path.join(moddir, "go.sum"))
